@@ -6,7 +6,7 @@
 import Cel.Model.Grammar
 namespace Cel.Grammar
 
-theorem Derives.anon (k : TK) (h : k.named = false) : Derives (.t k) [Tok.a k] [] := .tokDrop k _ h
+theorem Derives.anon (k : TK) (h : k.named = false) : Derives (.t k) [Tok.a k] [] := .tokDrop k h
 theorem Derives.kept (k : TK) (s : String) (h : k.named = true) : Derives (.t k) [⟨k, s⟩] [.leaf k s] := .tokKeep k s h
 
 theorem DerivesSeq.cons' {x xs ts1 ts2 cs1 cs2 ts cs} (h1 : Derives x ts1 cs1) (h2 : DerivesSeq xs ts2 cs2)
